@@ -188,7 +188,7 @@ class _Match(Generic[AnyStr]):
 
         # Exclusion patterns alone never reach the regular expression engine's own type check
         patterns = self.include or self.exclude
-        if patterns and not isinstance(patterns[0].pattern, type(self.filename)):
+        if patterns and isinstance(patterns[0].pattern, bytes) != isinstance(self.filename, bytes):
             raise TypeError(
                 "The filename and pattern should be of the same type, not {} and {}".format(
                     type(self.filename), type(patterns[0].pattern)
@@ -208,7 +208,7 @@ class _Match(Generic[AnyStr]):
             if dir_fd is not None and not SUPPORT_DIR_FD:
                 dir_fd = None
 
-            if not isinstance(self.filename, type(root)):
+            if isinstance(self.filename, bytes) != isinstance(root, bytes):
                 raise TypeError(
                     "The filename and root directory should be of the same type, not {} and {}".format(
                         type(self.filename), type(root_dir)
